@@ -752,6 +752,8 @@ class QueryBuilder(Selectable, Term):  # type:ignore[misc]
         newone._from = copy(self._from)
         newone._with = copy(self._with)
         newone._selects = copy(self._selects)
+        newone._force_indexes = copy(self._force_indexes)
+        newone._use_indexes = copy(self._use_indexes)
         newone._columns = copy(self._columns)
         newone._values = copy(self._values)
         newone._groupbys = copy(self._groupbys)
